@@ -40,9 +40,10 @@ Definition deliveries (overlap self : bool) (subs : list sparams) (pq : N) (pr :
   if overlap then match collect_merge self subs None with Some e => [to_delivery pq pr e] | None => [] end
   else map (to_delivery pq pr) (collect_each self subs).
 
-(* retained message (stored QoS rq) sent because of a new subscription: RETAIN=1, QoS min(rq, granted) *)
+(* retained message (stored QoS rq) sent because of a new subscription: RETAIN=1, QoS min(rq, granted),
+   the identifier of that subscription [MQTT-3.3.4-3] *)
 Definition retained_delivery (sp : sparams) (rq : N) : delivery :=
-  mkD (N.min rq (sp_qos sp)) true false [].
+  mkD (N.min rq (sp_qos sp)) true false (ids_of sp).
 
 (* ---- the shape of subscriber.Publish before the repair (kept for refute/C08.v) ---- *)
 Definition to_delivery_old (pq : N) (pr : bool) (e : entry) : delivery :=
